@@ -10,6 +10,7 @@ import (
 	"os"
 	"runtime/debug"
 	"strings"
+	"time"
 )
 
 type handler func(toks []string) string
@@ -68,6 +69,7 @@ func main() {
 	in := bufio.NewReaderSize(os.Stdin, 1<<20)
 	out := bufio.NewWriterSize(os.Stdout, 1<<20)
 	defer out.Flush()
+	lastFlush := time.Now()
 	for {
 		line, err := in.ReadString('\n')
 		if line == "" && err != nil {
@@ -81,6 +83,11 @@ func main() {
 			fmt.Fprintln(out, safe(h, toks[1:]))
 		} else {
 			fmt.Fprintln(out, "unknown-cmd")
+		}
+		// let the caller see progress: it kills a harness that produces no output for too long
+		if time.Since(lastFlush) > 200*time.Millisecond {
+			out.Flush()
+			lastFlush = time.Now()
 		}
 		if err != nil {
 			break
